@@ -171,11 +171,10 @@ impl FsmExecutor {
 
     /// Shutdown of all FSMs and IO-Processors.
     pub fn shutdown(&mut self) {
-        let mut guard = self.state.lock().unwrap();
-        while !guard.processors.is_empty() {
-            if let Some(pp) = guard.processors.pop() {
-                pp.lock().unwrap().shutdown();
-            }
+        // Take the processors out and release the executor state before they are locked, see "start_fsm".
+        let mut processors = std::mem::take(&mut self.state.lock().unwrap().processors);
+        while let Some(pp) = processors.pop() {
+            pp.lock().unwrap().shutdown();
         }
     }
 
